@@ -93,6 +93,9 @@ static void mode_dns(int shard, int nshards, int part)
       ans[o++] = 0xc0; ans[o++] = 12; o += put16(ans + o, T[t].qtype == T_PTR ? T_PTR : T[t].qtype); o += put16(ans + o, 1); o += put16(ans + o, 0); o += put16(ans + o, 0); o += put16(ans + o, v == 0 ? 4 : v == 1 ? 3 : 0xffff);
       anslen = o; snprintf(h_cur, sizeof h_cur, "c20 dns template=%s answer-of-%d-bytes-ending-in-a-record-header(rdlength=%d)", T[t].name, anslen, v == 0 ? 4 : v == 1 ? 3 : 65535); run_dns(h_cur); n_nontrivial++; }
   }
+  /* part 2: every single byte of every template := every value 0..255 (header flags incl. TC, counts, types, lengths, compression pointers) */
+  if (part == 2) for (t = 0; t < nT; t++) for (f = 0; f < T[t].len; f++) for (v = 0; v < 256; v++) { if ((cnt++ % nshards) != shard) continue; if (T[t].b[f] == v) continue;
+      memcpy(ans, T[t].b, T[t].len); ans[f] = v; anslen = T[t].len; snprintf(h_cur, sizeof h_cur, "c20 dns template=%s byte@%d=0x%02x", T[t].name, f, v); run_dns(h_cur); n_nontrivial++; }
   if (part == 1 && shard == 0) { memset(ans, 0xff, 65535); anslen = 65535; snprintf(h_cur, sizeof h_cur, "c20 dns 65535 bytes of 0xff"); run_dns(h_cur); for (pad = 513; pad < 530; pad++) { memcpy(ans, T[0].b, T[0].len); memset(ans + T[0].len, 0, pad); anslen = pad; snprintf(h_cur, sizeof h_cur, "c20 dns padded answer of %d bytes", pad); run_dns(h_cur); } }
   H_SAMPLE("DNS answers: %d templates x truncations, 16-bit field overwrites, sizes 480..513 ending in a record header", nT);
 }
@@ -121,6 +124,7 @@ static void mode_tok(int maxlen, int shard, int nshards)
 }
 
 /* ---- cdb ---- */
+static int cdb_all_values;
 static void mode_cdb(void)
 {
   int fd = memfd_create("cdb", 0), gd = memfd_create("cdb2", 0); struct cdbmss c; static char img[8192]; int len, cut, i, v; uint32 dlen; static const char *keys[] = { "!joe\0", "!joe-", "", "absent", "!" };
@@ -132,11 +136,11 @@ static void mode_cdb(void)
     if (ftruncate(gd, 0) || pwrite(gd, img, cut, 0) != cut) h_real_exit(2);
     snprintf(h_cur, sizeof h_cur, "c20 cdb truncated-at=%d key=%s", cut, keys[i]); { int r = cdb_seek(gd, keys[i], i == 0 ? 5 : strlen(keys[i]), &dlen); n_eval++; if (r == 1) { char b[64]; cdb_bread(gd, b, dlen < sizeof b ? dlen : sizeof b); } h_set_add(&outcomes, h_fnv(&r, sizeof r, 11)); } n_nontrivial++;
   }
-  for (cut = 0; cut < len; cut++) for (v = 0; v < 2; v++) for (i = 0; i < 5; i++) {
-    static char m[8192]; memcpy(m, img, len); m[cut] = v ? 0xff : 0; if (ftruncate(gd, 0) || pwrite(gd, m, len, 0) != len) h_real_exit(2);
-    snprintf(h_cur, sizeof h_cur, "c20 cdb byte@%d=0x%02x key=%s", cut, v ? 0xff : 0, keys[i]); { int r = cdb_seek(gd, keys[i], i == 0 ? 5 : strlen(keys[i]), &dlen); n_eval++; if (r == 1) { char b[64]; cdb_bread(gd, b, dlen < sizeof b ? dlen : sizeof b); } h_set_add(&outcomes, h_fnv(&r, sizeof r, 13)); } n_nontrivial++;
+  for (cut = 0; cut < len; cut++) for (v = 0; v < (cdb_all_values ? 256 : 2); v++) for (i = 0; i < 5; i++) {
+    static char m[8192]; memcpy(m, img, len); m[cut] = cdb_all_values ? v : v ? 0xff : 0; if (ftruncate(gd, 0) || pwrite(gd, m, len, 0) != len) h_real_exit(2);
+    snprintf(h_cur, sizeof h_cur, "c20 cdb byte@%d=0x%02x key=%s", cut, cdb_all_values ? v : v ? 0xff : 0, keys[i]); { int r = cdb_seek(gd, keys[i], i == 0 ? 5 : strlen(keys[i]), &dlen); n_eval++; if (r == 1) { char b[64]; cdb_bread(gd, b, dlen < sizeof b ? dlen : sizeof b); } h_set_add(&outcomes, h_fnv(&r, sizeof r, 13)); } n_nontrivial++;
   }
-  H_SAMPLE("cdb image of %d bytes: every truncation and every byte forced to 0x00/0xFF, 5 keys", len);
+  H_SAMPLE("cdb image of %d bytes: every truncation and every byte forced to %s, 5 keys", len, cdb_all_values ? "every value 0..255" : "0x00/0xFF");
 }
 
 /* ---- control files ---- */
@@ -162,7 +166,7 @@ int main(int argc, char **argv)
   if (argc < 2) return 2;
   if (!strcmp(argv[1], "dns")) mode_dns(atoi(argv[2]), atoi(argv[3]), atoi(argv[4]));
   else if (!strcmp(argv[1], "tok")) mode_tok(atoi(argv[2]), atoi(argv[3]), atoi(argv[4]));
-  else if (!strcmp(argv[1], "cdb")) mode_cdb();
+  else if (!strcmp(argv[1], "cdb")) { cdb_all_values = argc > 2 && atoi(argv[2]); mode_cdb(); }
   else if (!strcmp(argv[1], "ctl")) mode_ctl(argv[2], atoi(argv[3]));
   else return 2;
   printf("STAT evaluations=%ld distinct_nontrivial=%ld\n", n_eval, n_nontrivial);
